@@ -435,11 +435,17 @@ class PrettyPrinter:
             new_values = []
 
             for v in value:
-                if not isinstance(v, numbers.Number) and attr not in [
-                    "offset",
-                    "polaroffset",
-                ]:
+                if (
+                    not isinstance(v, numbers.Number)
+                    and attr
+                    not in [
+                        "offset",
+                        "polaroffset",
+                    ]
+                    and not (self.quoter.is_string(v) and self.quoter.in_brackets(v))
+                ):
                     # don't add quotes to list of attributes for offset / polaroffset
+                    # or to attribute bindings such as SHADOWSIZE [a] [b]
                     v = self.quoter.add_quotes(v)
                 new_values.append(v)
 
